@@ -778,6 +778,15 @@ fn c17_corpus_small() -> Vec<SrcCase> {
         fixed_case(".orig x4000\nmsg: .stringz \"hé→\"\nbuf .blkw 3 ; é\nk .fill #-1\n", 0x4000, &[".stringz \"hé→\"", ".stringz \"hé→\"", ".stringz \"hé→\"", ".stringz \"hé→\"", ".blkw 3", ".blkw 3", ".blkw 3", ".fill #-1"], &[("msg", 0), ("buf", 4), ("k", 7)], &[], false),
         // operands on several lines with a comment in between; `.break` and `.orig` interleaved
         fixed_case("add r0,\n r1 ; c é\n , r2\n.break\n.orig x5000\nlp ld r0 lp\n.break\n", 0x5000, &["add r0,\n r1 ; c é\n , r2", "ld r0 lp"], &[("lp", 1)], &[1, 2], false),
+        // the image ends exactly at the top of memory and a label stands behind its last statement
+        // (`orig + line` of that label is 0x10000)
+        fixed_case(".orig xFFFC\na add r0 r0 #0\nb halt\nc .fill x7\ntail .break\n", 0xFFFC, &["add r0 r0 #0", "halt", ".fill x7"], &[("a", 0), ("b", 1), ("c", 2), ("tail", 3)], &[3], false),
+        {
+            let mut texts = vec!["halt"];
+            texts.extend(std::iter::repeat(".blkw x200").take(0x200));
+            texts.push("halt");
+            fixed_case(".orig xFDFD\nfirst halt\nbuf .blkw x200\nlast halt\ntail .break\n", 0xFDFD, &texts, &[("first", 0), ("buf", 1), ("last", 0x201), ("tail", 0x202)], &[0x202], false)
+        },
         // a directive directly behind a label operand, without any separator
         fixed_case(".orig x3000\nbr skip.fill x1234\nskip st r0, val.stringz \"h\u{e9}\"\nval lea r1 skip.blkw 2 halt\n", 0x3000, &["br skip", ".fill x1234", "st r0, val", ".stringz \"h\u{e9}\"", ".stringz \"h\u{e9}\"", ".stringz \"h\u{e9}\"", "lea r1 skip", ".blkw 2", ".blkw 2", "halt"], &[("skip", 2), ("val", 6)], &[], false),
         // user space ends inside the program
@@ -1036,6 +1045,8 @@ pub fn c17_table_corpus() -> Vec<SrcCase> {
         texts.push(".fill #-1");
         v.push(fixed_table_case(&src, 0x4000, &texts, &labels, &[], &[]));
     }
+    // the image ends exactly at the top of memory, a label behind its last statement
+    v.push(fixed_table_case(".orig xFFFC\nfirst halt\nbuf .blkw 1\nlast halt\ntail .break\n", 0xFFFC, &["halt", ".blkw 1", "halt"], &[("first", 0), ("buf", 1), ("last", 2), ("tail", 3)], &[3], &[]));
     // statements 0x8000 words and more after the first one
     v.push(far_case("B17", 0x3000, 0x8000, true));
     v.push(far_case("B17", 0x0001, 0xC000, true));
